@@ -4,15 +4,16 @@
 // 6-12 client goroutines spread over the nodes. One replica is made to lag by stalling its
 // apply path (AppliedIndexListener). Every call is recorded at the client boundary (call event
 // before, return event after, one atomic counter) and the history is judged offline:
-//  (1) acknowledged mutations carry distinct non-zero revisions consistent with real time;
-//  (2) replaying the mutations in revision order through the reference model explains every
-//      write response;
-//  (3) a linearizable read / read-only txn equals the state after some revision between the
-//      newest write acknowledged before it started and the newest write started before it ended;
-//  (4) a serializable read equals the state after SOME revision up to that bound (never a state
-//      that did not exist);
-//  (5) second opinion: single-key put / delete / linearizable get on two register keys that no
-//      transaction or range delete touches are checked with porcupine.
+//
+//	(1) acknowledged mutations carry distinct non-zero revisions consistent with real time;
+//	(2) replaying the mutations in revision order through the reference model explains every
+//	    write response;
+//	(3) a linearizable read / read-only txn equals the state after some revision between the
+//	    newest write acknowledged before it started and the newest write started before it ended;
+//	(4) a serializable read equals the state after SOME revision up to that bound (never a state
+//	    that did not exist);
+//	(5) second opinion: single-key put / delete / linearizable get on two register keys that no
+//	    transaction or range delete touches are checked with porcupine.
 package main
 
 import (
@@ -49,14 +50,14 @@ type op struct {
 	Rev    uint64 `json:"rev,omitempty"`
 	Desc   string `json:"desc"`
 
-	put   *pb.PutRequest
-	del   *pb.DeleteRangeRequest
-	txn   *pb.TxnRequest
-	rng   *pb.RangeRequest
-	putR  *pb.PutResponse
-	delR  *pb.DeleteRangeResponse
-	txnR  *pb.TxnResponse
-	rngR  *pb.RangeResponse
+	put    *pb.PutRequest
+	del    *pb.DeleteRangeRequest
+	txn    *pb.TxnRequest
+	rng    *pb.RangeRequest
+	putR   *pb.PutResponse
+	delR   *pb.DeleteRangeResponse
+	txnR   *pb.TxnResponse
+	rngR   *pb.RangeResponse
 	behind bool
 }
 
@@ -84,6 +85,10 @@ func main() {
 			fmt.Fprintln(os.Stderr, "replay:", err)
 			os.Exit(2)
 		}
+		if w.Profile == "deposed-leader" {
+			runDeposedLeader(r, w.RunSeed)
+			r.Finish()
+		}
 		for i := 0; i < 5 && r.Violations() == 0; i++ {
 			runOne(r, w.RunSeed, w.Profile)
 		}
@@ -98,6 +103,9 @@ func main() {
 		}
 		runOne(r, r.Seed*1_000_003+int64(i), p)
 	}
+	runDeposedLeader(r, r.Seed*2_000_003)
+	r.FloorCount("deposed_leader_trials", int64(r.Pick(2, 8)))
+	r.FloorCount("deposed_leader_trials_where_it_still_believed_to_lead_at_the_acknowledgement", int64(r.Pick(1, 4)))
 	if rep := racelog.Scan(); rep != nil {
 		for sig, n := range rep.Regatta {
 			r.Note(fmt.Sprintf("race report with regatta frames (recorded, not deciding for C10): %s x%d", sig, n))
